@@ -32,6 +32,7 @@ type faultPlan struct {
 	End   string          `json:"end,omitempty"` // fin | rst | timeout | werr
 	Cut   int             `json:"cut,omitempty"`
 	WFail int64           `json:"wfail,omitempty"`
+	Slow  time.Duration   `json:"slow_storage,omitempty"` // every open / read of the storage takes this long (virtual time): work started on behalf of a connection may still be under way when it ends
 }
 
 type c13Result struct {
@@ -56,6 +57,9 @@ func c13Run(t *testing.T, root string, sc c13Scenario, mk func() *Model, plan fa
 	}
 	leaf := newVFs(afero.NewOsFs(), "leaf")
 	leaf.Hook = func(e FsEvent) *FsFault {
+		if plan.Slow > 0 && (e.Op == "Read" || e.Op == "ReadAt" || e.Op == "Open" || e.Op == "OpenFile") {
+			time.Sleep(plan.Slow)
+		}
 		if f, ok := plan.At[e.Seq]; ok {
 			return &f
 		}
@@ -124,19 +128,33 @@ func c13Run(t *testing.T, root string, sc c13Scenario, mk func() *Model, plan fa
 				sent += len(b)
 				synctest.Wait()
 				st := StepObs{Req: rq.String()}
+				idle := 0
 				for {
 					x := c.Take()
 					res.stream = append(res.stream, x...)
 					if int64(len(res.stream)) >= plan.WFail {
 						c.Rst()
 						synctest.Wait()
+						if plan.Slow > 0 {
+							// the server may be inside a slow open or read; it meets the reset at its next connection operation
+							time.Sleep(20 * plan.Slow)
+							synctest.Wait()
+						}
 						ended = true
 						break
 					}
 					synctest.Wait()
 					if len(x) == 0 {
-						break
+						if plan.Slow == 0 || idle >= 3 {
+							break
+						}
+						// slow storage: the server may be inside an open or read, not finished with the response
+						idle++
+						time.Sleep(5 * plan.Slow)
+						synctest.Wait()
+						continue
 					}
+					idle = 0
 				}
 				st.Closed = c.ServerClosed()
 				res.steps = append(res.steps, st)
@@ -212,6 +230,11 @@ func c13Run(t *testing.T, root string, sc c13Scenario, mk func() *Model, plan fa
 		if !res.closed {
 			fail("not-closed", "server never closed the connection")
 		}
+		if plan.Slow > 0 {
+			// whatever was still under way for the connection has had time to finish
+			time.Sleep(20 * plan.Slow)
+			synctest.Wait()
+		}
 		// every handle opened on behalf of the connection must be closed once it has ended
 		res.leaked = leaf.Outstanding()
 		if len(res.leaked) > 0 {
@@ -219,6 +242,7 @@ func c13Run(t *testing.T, root string, sc c13Scenario, mk func() *Model, plan fa
 		}
 		// the server keeps serving new connections
 		plan.At = nil
+		plan.Slow = 0
 		p := s.Dial(nil)
 		pr, pclosed := s.Exchange(p, mkReq(opStatFile, "/").Encode())
 		res.probeOK = len(pr) == szStat && !pclosed && int64(be64(pr)) == 0 && pr[32] == 1
@@ -304,7 +328,7 @@ func c13PrefixOK(m *Model, rq Req, resp []byte) bool {
 func TestC13(t *testing.T) {
 	r := NewReporter(t)
 	defer r.Done()
-	r.Rule("12 scenarios (plain reads with the default, a 1000-byte and no pooled transfer buffer, generated image DVD/PS3 with lazily opened members, redump with adjacent and with both keys, 3k3y, directory enumeration with symlinks, create/write/delete, dir-size, CD reads); per scenario: fault-free run numbers the N leaf filesystem operations, then an injected error (EIO, EINTR, EAGAIN) at every index, a legal short read (1 byte / half) at every Read, a partial write (half, then ENOSPC) at every Write, a short read followed by EINTR/EAGAIN at the next operations, thorough: every pair of deviations of any two kinds (i<j, deviation bound 2); and connection endings FIN / RST / idle timeout at every script byte position class write failure at every response byte position class, and a reset by a slowly receiving client (4096-byte send buffer, server blocked in Write) at every response byte position class; 2700 requests on one connection and 400 short connections with four kinds of ending on one server; oracles: handle ledger empty after the connection ended, connection closed, fresh connection served, responses = model answer | failure code | correct prefix + disconnect; distinct by (scenario, deviation)")
+	r.Rule("13 scenarios (plain reads with the default, a 1000-byte and no pooled transfer buffer, generated image DVD/PS3 with lazily opened members, redump with adjacent and with both keys, 3k3y, directory enumeration with symlinks, create/write/delete, dir-size, CD reads); per scenario: fault-free run numbers the N leaf filesystem operations, then an injected error (EIO, EINTR, EAGAIN) at every index, a legal short read (1 byte / half) at every Read, a partial write (half, then ENOSPC) at every Write, a short read followed by EINTR/EAGAIN at the next operations, thorough: every pair of deviations of any two kinds (i<j, deviation bound 2); and connection endings FIN / RST / idle timeout at every script byte position class write failure at every response byte position class, and a reset by a slowly receiving client (4096-byte send buffer, server blocked in Write) at every response byte position class, also on slow storage (every open and read takes 40 ms of virtual time, so work for the connection is still under way when it ends); 2700 requests on one connection and 400 short connections with four kinds of ending on one server; oracles: handle ledger empty after the connection ended, connection closed, fresh connection served, responses = model answer | failure code | correct prefix + disconnect; distinct by (scenario, deviation)")
 	w, objs := buildC02World(t, r)
 	defer w.Cleanup()
 	// extras: both-keys image, directory with symlinks, writable dir, CD image
@@ -354,6 +378,7 @@ func TestC13(t *testing.T) {
 		{name: "plain-buf1000", buf: 1000, reqs: []Req{mkReq(opOpenFile, "/plain/f65537.bin"), rdcReq(10, 3500), rdReq(5, 2500), rdcReq(65000, 537), mkReq(opOpenFile, "/cd.bin"), cdReq(1, 2)}},
 		{name: "plain-unpooled", buf: -1, reqs: []Req{mkReq(opOpenFile, "/plain/f65537.bin"), rdcReq(10, 40000), rdReq(5, 40000), mkReq(opOpenFile, "/cd.bin"), cdReq(1, 2)}},
 		{name: "upload-buf1000", allow: true, buf: 1000, reqs: []Req{mkReq(opCreateFile, "/w/n.bin"), wrReq(patBytes(3, 0, 3500)), wrReq([]byte("abc"))}},
+		{name: "image-dvd-buf1000", buf: 1000, reqs: []Req{mkReq(opOpenFile, "/***DVD***/game"), rdcReq(imgSize-70*2048, 20*2048), rdReq(imgSize-30*2048, 30*2048)}},
 		{name: "dirsize-cd", reqs: []Req{mkReq(opGetDirSize, "/game"), mkReq(opGetDirSize, "/"), mkReq(opOpenFile, "/cd.bin"), cdReq(1, 2), cdReq(16, 1)}},
 	}
 	idx := 0
@@ -376,7 +401,7 @@ func TestC13(t *testing.T) {
 		judge := func(p faultPlan, res *c13Result, kind string) {
 			r.Transition(int64(len(res.steps)) + 1)
 			r.Eval(1)
-			key := sprintf("%s|%v|%s|%d|%d", sc.name, p.Desc, p.End, p.Cut, p.WFail)
+			key := sprintf("%s|%v|%s|%d|%d|%v", sc.name, p.Desc, p.End, p.Cut, p.WFail, p.Slow)
 			r.State(key)
 			r.Nontrivial(key)
 			for _, st := range res.steps {
@@ -543,6 +568,18 @@ func TestC13(t *testing.T) {
 				}
 			}
 			judge(p, res, "end")
+			// the same on slow storage: the connection goes away while an open or read is still in progress
+			if wf > 4096 {
+				ps := faultPlan{End: "rstw", WFail: wf, Slow: 40 * time.Millisecond}
+				res := c13Run(t, w.Root, sc, mk, ps, resetW)
+				if res.why == "" && !sc.noF {
+					n := min(len(res.stream), len(base.stream))
+					if len(res.stream) > len(base.stream) || !bytes.Equal(res.stream[:n], base.stream[:n]) {
+						res.why, res.sig = "bytes received before the reset differ from the fault-free stream: "+describeDiff(res.stream[:n], base.stream[:n]), "rstw-slow-bytes"
+					}
+				}
+				judge(ps, res, "end")
+			}
 		}
 	}
 	// (6) repetition: the same commands many times on one connection, and many short connections that end in
